@@ -164,6 +164,7 @@ func genStop(c *ctx) {
 			}
 			s.preexist = c.rng.Intn(2) == 0
 			if s.who == "client-after-continue" {
+				s.del = (k/5)%2 == 1
 				// early in the data direction, so that much of the transfer is left after the continue
 				s.dir = dirS2C
 				if cfg.upload {
@@ -282,6 +283,11 @@ func genStop(c *ctx) {
 			}
 		})
 		cfg.hook = func(d, i int, b []byte) e2eAction {
+			if s.who == "client-after-continue" && d == s.dir && i >= s.idx && !bytes.Contains(b, []byte("#DATA:")) {
+				// this scenario is about a pause inside the data phase: with a chunk on its way
+				// whose acknowledgement is read only after the continue
+				return e2eAction{}
+			}
 			a := inner(d, i, b)
 			if ms := throttle.Load(); ms > 0 {
 				time.Sleep(time.Duration(ms) * time.Millisecond)
